@@ -132,6 +132,17 @@ for _p, _t in (("C07", "cursor motions"), ("C08", "operators, inserts, puts, reg
              "deviations are recognised only when the recorded state equals the operational transcription kept in the spec and the "
              "pattern has a word-boundary anchor.")
 
+CHECKS["C09"] = dict(
+    level="model_checking",
+    text="Gen_Vi.tla models the input queue as it is: '.' appends max(N,1) copies of the keys of the last repeatable command, "
+         "'@r' copies of the register, and queued keys are consumed command by command before anything typed; every command "
+         "taken from the queue is checked with the same Vi!ViCmd as a typed one. Three bindings against the traced vi -v: the "
+         "push-back records carry exactly the expected keys; the state after every queued command equals the model's; and the "
+         "two-run relation: the script and its expansion (every . and @ replaced by the keys it stands for) end in the same text, "
+         "cursor and registers.",
+    design="8/C09", technique="TLA+ model of repeat / macro queue (Gen_Vi.tla over Vi.tla) evaluated by TLC; replay and two-run relation (M1)",
+    note="A . or @ inside an executing macro is not generated (known nesting behaviour: keys are appended after the rest).")
+
 NOT_YET = {}
 
 def main():
